@@ -506,6 +506,8 @@ def _run_clients(plan: dict, sim: sched.Sim, ch: sched.Chooser, dep: deploy.Depl
         dep.db.fault = sql_fault
     line_interrupts = [dict(f) for f in plan.get("line_interrupts", [])]
     reading: dict[str, int] = {}
+    dirty: dict[str, bool] = {}
+    healed: dict[str, set] = {}  # study ids fully re-read by the client since its last interrupt
     if line_interrupts:
         nline: dict[str, int] = {}
 
@@ -523,6 +525,11 @@ def _run_clients(plan: dict, sim: sched.Sim, ch: sched.Chooser, dep: deploy.Depl
                 if not f.get("fired") and f["client"] == task.name and f["nth"] == nline[task.name] - 1:
                     f["fired"] = True
                     sim.count("interrupt_at_line_of_cached_storage")
+                    # a refresh cut short may leave the cache half updated until the client's
+                    # next complete get_all_trials of the study: single-trial reads in between
+                    # are not judged (what must not happen is damage that never heals)
+                    dirty[task.name] = True
+                    healed[task.name] = set()
                     return KeyboardInterrupt()
             return None
 
@@ -547,6 +554,9 @@ def _run_clients(plan: dict, sim: sched.Sim, ch: sched.Chooser, dep: deploy.Depl
     def read_trial(name: str, st: Any, op: dict) -> None:
         tid = env.real.get(op["trial"])
         if tid is None:
+            return
+        if dirty.get(name):
+            sim.count("single_read_not_judged_after_interrupt")
             return
         stats["reads"] += 1
         if writes_since_read[name] - {name}:
@@ -624,12 +634,16 @@ def _run_clients(plan: dict, sim: sched.Sim, ch: sched.Chooser, dep: deploy.Depl
                 if raw_err is not None:
                     bad("get_all_trials", "client returned %d trials of a study that the backend no longer has" % len(got))
                     return
+                if dirty.get(name):
+                    healed.setdefault(name, set()).add(sid)
+                    if all(v in healed[name] for h_, v in env.real.items() if "S" in h_ and "T" not in h_):
+                        dirty[name] = False
                 want = [t for t in want_all if states is None or t.state in states]
                 a, b = _canon_list(got), _canon_list(want)
                 if a != b:
                     bad("get_all_trials", "states=%r deepcopy=%r: client numbers/states %r, backend %r; first differing trial: %r vs %r" % (f, dc, [(x[1]["number"], x[1]["state"]) for x in a], [(x[1]["number"], x[1]["state"]) for x in b], next((x for x, y in zip(a, b) if x != y), None), next((y for x, y in zip(a, b) if x != y), None)))
                     return
-        if raw_err is not None or not full:
+        if raw_err is not None or not full or (dirty.get(name) and sid not in healed.get(name, set())):
             return
         for t in want_all:
             try:
